@@ -205,3 +205,97 @@ func runK9(c *core.Ctx) {
 		}
 	}
 }
+
+// K11: at every place where generated code is registered with the runtime (BaseAssembler.Load
+// and loader.LoadOneItem literals), the argument pointer bitmap handed over describes exactly
+// the argument area declared there: len(ArgPtrs) * 8 == ArgSize. Passing the bitmap of another
+// frame family (the one-word map of the generic decoder for a typed decoder) hides argument
+// slots from the garbage collector.
+
+func init() {
+	register(&core.Rule{ID: "K11", Min: 4,
+		Doc: "Registration sites pass the bitmap of their own frame: for every `Load(name, frameSize, argSize, argPtrs, localPtrs)` call of the JIT assemblers and every loader.LoadOneItem literal (batch pretouch) in the encoder and decoder packages, the []bool passed as ArgPtrs resolves to a literal whose length times 8 equals the constant passed as the argument size.",
+		Run: runK11})
+}
+
+func runK11(c *core.Ctx) {
+	p := c.Prog
+	if p.GOARCH != "amd64" {
+		return
+	}
+	boolLitLen := func(e ast.Expr) (int, bool) {
+		e = ast.Unparen(e)
+		if o, ok := p.ExprObj(e).(*types.Var); ok && !o.IsField() {
+			if init := p.VarInit(o); init != nil {
+				e = ast.Unparen(init)
+			}
+		}
+		if cl, ok := e.(*ast.CompositeLit); ok {
+			return len(cl.Elts), true
+		}
+		return 0, false
+	}
+	n := 0
+	for _, rel := range []string{"internal/decoder/jitdec", "internal/encoder", "internal/encoder/x86"} {
+		pk := p.Pkg(rel)
+		if pk == nil {
+			continue
+		}
+		for _, fd := range core.FuncDecls(pk) {
+			if fd.Body == nil || strings.HasSuffix(p.Fset.Position(fd.Pos()).Filename, "_test.go") {
+				continue
+			}
+			fn := core.FuncName(pk, fd)
+			k := 0
+			check := func(pos token.Pos, size, ptrs ast.Expr, what string) {
+				k++
+				n++
+				cn := fn + "/registration#" + itoa(k)
+				c.Analysed(fn)
+				sz, ok1 := p.ConstInt(size)
+				ln, ok2 := boolLitLen(ptrs)
+				switch {
+				case !ok1 || !ok2:
+					c.Undecided(cn, pos, "%s: argument size %s or bitmap %s not resolvable", what, exprStr(size), exprStr(ptrs))
+				case int64(ln)*8 != sz:
+					c.Bad(cn, pos, "%s registers an argument area of %d bytes (%s) with the pointer bitmap %s of %d word(s): the runtime is told about %d argument bytes only, so the remaining argument slots - which hold the only references to objects the generated code has allocated but not yet linked - are not GC roots", what, sz, exprStr(size), exprStr(ptrs), ln, ln*8)
+				default:
+					c.OK(cn, pos, "%s: %s covers %s (%d bytes)", what, exprStr(ptrs), exprStr(size), sz)
+				}
+			}
+			ast.Inspect(fd.Body, func(nd ast.Node) bool {
+				switch x := nd.(type) {
+				case *ast.CallExpr:
+					if se, ok := x.Fun.(*ast.SelectorExpr); ok && se.Sel.Name == "Load" && len(x.Args) == 5 {
+						if _, isSl := p.TypeOf(x.Args[3]).Underlying().(*types.Slice); isSl {
+							check(x.Pos(), x.Args[2], x.Args[3], "Load("+exprStr(x.Args[0])+")")
+						}
+					}
+				case *ast.CompositeLit:
+					if t := p.TypeOf(x); t != nil {
+						if nt, ok := types.Unalias(t).(*types.Named); ok && nt.Obj().Name() == "LoadOneItem" {
+							var size, ptrs ast.Expr
+							for _, el := range x.Elts {
+								if kv, ok := el.(*ast.KeyValueExpr); ok {
+									switch exprStr(kv.Key) {
+									case "ArgSize":
+										size = kv.Value
+									case "ArgPtrs":
+										ptrs = kv.Value
+									}
+								}
+							}
+							if size != nil && ptrs != nil {
+								check(x.Pos(), size, ptrs, "loader.LoadOneItem")
+							}
+						}
+					}
+				}
+				return true
+			})
+		}
+	}
+	if n < 4 {
+		c.Undecided("jit/registration-sites", token.NoPos, "only %d registration sites found", n)
+	}
+}
